@@ -20,7 +20,7 @@ import vlib
 from harness import validator_lib as H
 
 PROJECT = "validator"
-PROPS = ["Octave.Props.C09"]
+PROPS = ["Octave.Props.C09", "Octave.Props.C09other"]
 V = "octave_mcp/core/validator.py"
 ANCHORS = [(V, "Validator._to_python_value"), (V, "Validator.validate"), (V, "Validator._validate_section"), (V, "Validator._validate_unknown_fields"),
            (V, "Validator._validate_meta"), (V, "UnknownFieldPolicy"), ("octave_mcp/core/routing.py", "TargetRegistry"),
